@@ -6,6 +6,7 @@ import (
 	"fmt"
 	"go/types"
 	"sort"
+	"strings"
 
 	"golang.org/x/tools/go/ssa"
 )
@@ -71,11 +72,21 @@ type State struct {
 	cells    map[*Cell]*Term
 	heap     map[string]*Term
 	heapGen  int // names not in heap resolve to the constant <name>@gen
+	pgen     map[string]int // package name -> generation of "everything of that package havocked"
+	lazyParents []*State    // join of states whose heap generations differ: unknown names resolve through them
+	lazyReach   []*Term
 	allocTop *Term
 }
 
 func (s *State) clone() *State {
 	n := &State{reach: s.reach, heapGen: s.heapGen, allocTop: s.allocTop, cells: make(map[*Cell]*Term, len(s.cells)), heap: make(map[string]*Term, len(s.heap))}
+	n.lazyParents, n.lazyReach = s.lazyParents, s.lazyReach
+	if len(s.pgen) > 0 {
+		n.pgen = make(map[string]int, len(s.pgen))
+		for k, v := range s.pgen {
+			n.pgen[k] = v
+		}
+	}
 	for k, v := range s.cells {
 		n.cells[k] = v
 	}
@@ -96,10 +107,63 @@ func (e *Exec) heapGet(st *State, name, sort string) *Term {
 	}
 	e.heapSorts[name] = sort
 	cn := name
-	if st.heapGen > 0 {
-		cn = fmt.Sprintf("%s@%d", name, st.heapGen)
+	gen := st.heapGen
+	pg := 0
+	for p, g := range st.pgen {
+		if g > pg && arrayOfPkg(name, p) {
+			pg = g
+		}
+	}
+	if len(st.lazyParents) > 0 && pg == 0 {
+		// the state is a join of states with different heap generations: resolve through the parents
+		vals := make([]*Term, len(st.lazyParents))
+		for i, ps := range st.lazyParents {
+			vals[i] = e.heapGet(ps, name, sort)
+		}
+		t := e.mergeTerms(st.lazyReach, vals, name)
+		st.heap[name] = t
+		return t
+	}
+	if pg > gen {
+		gen = pg
+	}
+	if gen > 0 {
+		cn = fmt.Sprintf("%s@%d", name, gen)
 	}
 	return e.c.Const(cn, sort)
+}
+
+// arrayOfPkg: does the heap array hold data of a type declared in package pkg?
+func arrayOfPkg(name, pkg string) bool {
+	i := strings.Index(name, "_")
+	return i >= 0 && strings.Contains(name[i:], pkg+".")
+}
+
+// havocPkg forgets everything stored in objects of types of the given package.
+func (e *Exec) havocPkg(st *State, pkg string) {
+	e.genCounter++
+	if st.pgen == nil {
+		st.pgen = map[string]int{}
+	}
+	st.pgen[pkg] = e.genCounter
+	for n := range st.heap {
+		if arrayOfPkg(n, pkg) {
+			delete(st.heap, n)
+		}
+	}
+	e.bumpAlloc(st)
+}
+
+func samePgen(a, b map[string]int) bool {
+	if len(a) != len(b) {
+		return false
+	}
+	for k, v := range a {
+		if b[k] != v {
+			return false
+		}
+	}
+	return true
 }
 
 func (e *Exec) heapSet(st *State, name string, t *Term) {
@@ -113,6 +177,8 @@ func (e *Exec) havocAll(st *State) {
 	e.genCounter++
 	st.heapGen = e.genCounter
 	st.heap = map[string]*Term{}
+	st.pgen = nil
+	st.lazyParents, st.lazyReach = nil, nil
 	e.bumpAlloc(st)
 }
 
@@ -142,8 +208,14 @@ func (e *Exec) mergeStates(ins []*State, hint string) *State {
 	gen := ins[0].heapGen
 	same := true
 	for _, s := range ins {
-		if s.heapGen != gen {
+		if s.heapGen != gen || !samePgen(s.pgen, ins[0].pgen) {
 			same = false
+		}
+	}
+	if same && len(ins[0].pgen) > 0 {
+		out.pgen = map[string]int{}
+		for k, v := range ins[0].pgen {
+			out.pgen[k] = v
 		}
 	}
 	names := map[string]bool{}
@@ -153,12 +225,18 @@ func (e *Exec) mergeStates(ins []*State, hint string) *State {
 		}
 	}
 	if !same {
-		// all names ever touched may differ
-		for k := range e.heapSorts {
-			names[k] = true
+		// names first read later are resolved lazily through the incoming states
+		out.lazyParents = ins
+		out.lazyReach = rs
+		gen = 0
+	} else if len(ins[0].lazyParents) > 0 {
+		out.lazyParents, out.lazyReach = ins[0].lazyParents, ins[0].lazyReach
+		for _, s := range ins {
+			if len(s.lazyParents) != len(ins[0].lazyParents) || (len(s.lazyParents) > 0 && s.lazyParents[0] != ins[0].lazyParents[0]) {
+				out.lazyParents, out.lazyReach = ins, rs
+				out.pgen = nil
+			}
 		}
-		e.genCounter++
-		gen = e.genCounter
 	}
 	out.heapGen = gen
 	keys := make([]string, 0, len(names))
